@@ -26,6 +26,7 @@ import (
 	"github.com/lightningnetwork/lnd/record"
 	"github.com/lightningnetwork/lnd/routing/route"
 	"github.com/lightningnetwork/lnd/sqldb"
+	"github.com/lightningnetwork/lnd/tlv"
 )
 
 // This file is the executor of property C16 (spec/PaymentStore).  It replays
@@ -36,24 +37,141 @@ import (
 // c16Unit is the number of millisatoshi of one model amount unit.
 const c16Unit = 1000
 
+// c16Hop / c16Route are the route of an attempt in the terms of
+// spec/PaymentStore (PaymentStore.tla, "Routes and their shapes"): amounts in
+// units of c16Unit msat, keys / blobs / records as small ids of the fixed
+// concrete values below, 0 = absent.  The same struct is the input (the route
+// handed to RegisterAttempt is built from it field by field) and the
+// read-back projection (filled field by field from the route the store
+// returns; a concrete value that is none of the fixed ones reads as -1).
+type c16Hop struct {
+	Pk  int `json:"pk"`  // node key id
+	Ch  int `json:"ch"`  // channel id
+	Tl  int `json:"tl"`  // outgoing time lock
+	Amt int `json:"amt"` // amount to forward, units
+	Ma  int `json:"ma"`  // MPP record: payment address id (0 = no MPP record)
+	Mt  int `json:"mt"`  // MPP record: total, units
+	Amp int `json:"amp"` // AMP record id (0 = none)
+	Enc int `json:"enc"` // encrypted data id (0 = none)
+	Bp  int `json:"bp"`  // blinding point id (0 = none)
+	Tot int `json:"tot"` // blinded path total amount, units
+	Cr  int `json:"cr"`  // custom records id (0 = none)
+	Md  int `json:"md"`  // metadata id (0 = none)
+}
+
+type c16Route struct {
+	Ta   int      `json:"ta"`  // total amount, units
+	Ttl  int      `json:"ttl"` // total time lock
+	Fha  int      `json:"fha"` // first hop amount, units (0 = unset)
+	Fcr  int      `json:"fcr"` // first hop wire custom records id (0 = none)
+	Src  int      `json:"src"` // source key id
+	Hops []c16Hop `json:"hops"`
+}
+
+func c16NoRoute() c16Route { return c16Route{Hops: []c16Hop{}} }
+
 // c16Ev is one step of a schedule (a TLC-generated behaviour of
 // PaymentStoreGen or a step of the free-running driver).
 type c16Ev struct {
-	A    string `json:"a"`    // action
-	H    string `json:"h"`    // payment: "h1", "h2", ... ("" for store-wide ops)
-	ID   int    `json:"id"`   // attempt id
+	A     string    `json:"a"`     // action
+	H     string    `json:"h"`     // payment: "h1", "h2", ... ("" for store-wide ops)
+	ID    int       `json:"id"`    // attempt id
+	Shape string    `json:"shape"` // name of the route's shape (a label for reports)
+	Rt    *c16Route `json:"rt"`    // Register: the route of the attempt
+	Fo    int       `json:"fo"`    // DeletePayment: failedAttemptsOnly; DeletePayments: failedOnly
+	Fa    int       `json:"fa"`    // DeletePayments: failedHtlcsOnly
+	Rs    int       `json:"rs"`    // Fail: failure reason
+
+	// Schedules stored before routes were part of the event (spec/PaymentStore/repro)
+	// describe the attempt by kind; they are translated to a route on reading.
 	Kind string `json:"kind"` // "single" | "mpp" | "blind" | ""
-	Addr int    `json:"addr"` // MPP payment address (mpp only)
-	Tot  int    `json:"tot"`  // MPP total / blinded total amount, in units
-	Amt  int    `json:"amt"`  // receiver amount of the attempt, in units
-	Fo   int    `json:"fo"`   // DeletePayment: failedAttemptsOnly; DeletePayments: failedOnly
-	Fa   int    `json:"fa"`   // DeletePayments: failedHtlcsOnly
-	Rs   int    `json:"rs"`   // Fail: failure reason
+	Addr int    `json:"addr"`
+	Tot  int    `json:"tot"`
+	Amt  int    `json:"amt"`
+}
+
+// route returns the route of the event (translating the stored format).
+func (e c16Ev) route() c16Route {
+	if e.Rt != nil {
+		if e.Rt.Hops == nil {
+			e.Rt.Hops = []c16Hop{}
+		}
+		return *e.Rt
+	}
+	switch e.Kind {
+	case "single":
+		return c16SingleR(2, e.Amt)
+	case "mpp":
+		return c16MppR(2, e.Addr, e.Tot, e.Amt)
+	case "blind":
+		return c16BlindR(0, 2, e.Tot, e.Amt)
+	}
+	return c16NoRoute()
 }
 
 func (e c16Ev) rec() verifkit.Rec {
-	return verifkit.Rec{"a": e.A, "h": e.H, "id": e.ID, "kind": e.Kind, "addr": e.Addr,
-		"tot": e.Tot, "amt": e.Amt, "fo": e.Fo, "fa": e.Fa, "rs": e.Rs}
+	shape := e.Shape
+	if shape == "" && e.Kind != "" {
+		shape = "stored-" + e.Kind
+	}
+	return verifkit.Rec{"a": e.A, "h": e.H, "id": e.ID, "shape": shape, "rt": e.route(),
+		"fo": e.Fo, "fa": e.Fa, "rs": e.Rs}
+}
+
+// ---------------------------------------------------------------- route shapes
+// The constructors of PaymentStore.tla, for the free-running drivers and the
+// stored schedules (inputs only; the generated schedules carry their routes).
+
+func c16Hp(i, n, amt int) c16Hop { return c16Hop{Pk: i, Ch: 10 + i, Tl: 100 + 10*(n-i), Amt: amt} }
+
+func c16Rt(hops []c16Hop, fee int) c16Route {
+	return c16Route{Ta: hops[len(hops)-1].Amt + fee, Ttl: 110 + 10*len(hops), Src: 9, Hops: hops}
+}
+
+func c16SingleR(n, amt int) c16Route {
+	var hops []c16Hop
+	for i := 1; i <= n; i++ {
+		hops = append(hops, c16Hp(i, n, amt))
+	}
+	return c16Rt(hops, 1)
+}
+
+func c16MppR(n, addr, tot, amt int) c16Route {
+	r := c16SingleR(n, amt)
+	r.Hops[n-1].Ma, r.Hops[n-1].Mt = addr, tot
+	return r
+}
+
+func c16AmpR(n, addr, tot, amt, k int) c16Route {
+	r := c16MppR(n, addr, tot, amt)
+	r.Hops[n-1].Amp = k
+	return r
+}
+
+func c16BlindR(pre, ln, tot, amt int) c16Route {
+	n := pre + ln
+	var hops []c16Hop
+	for i := 1; i <= n; i++ {
+		if i <= pre {
+			hops = append(hops, c16Hp(i, n, amt))
+			continue
+		}
+		h := c16Hp(i, n, 0)
+		h.Tl = 0
+		h.Enc = i - pre
+		if i-pre == 1 {
+			h.Bp = 1
+		}
+		if i == n {
+			h = c16Hp(i, n, amt)
+			h.Enc, h.Tot = i-pre, tot
+			if i-pre == 1 {
+				h.Bp = 1
+			}
+		}
+		hops = append(hops, h)
+	}
+	return c16Rt(hops, 1)
 }
 
 // c16Store is one backend under test.
@@ -155,7 +273,183 @@ type c16Fix struct {
 	value  int
 	nAtt   int
 	base   uint64 // concrete attempt id = base + model id
-	src    route.Vertex
+}
+
+// c16Keys are the fixed concrete public keys behind the key ids of a route:
+// node keys 1..9 (9 = the source), blinding points 101, 102.
+var (
+	c16KeyOnce sync.Once
+	c16KeyByID map[int]*btcec.PublicKey
+	c16IDByKey map[route.Vertex]int
+)
+
+func c16Key(id int) *btcec.PublicKey {
+	c16KeyOnce.Do(func() {
+		c16KeyByID = map[int]*btcec.PublicKey{}
+		c16IDByKey = map[route.Vertex]int{}
+		for _, k := range []int{1, 2, 3, 4, 5, 6, 7, 8, 9, 101, 102} {
+			seed := sha256.Sum256([]byte(fmt.Sprintf("c16-key/%d", k)))
+			_, pub := btcec.PrivKeyFromBytes(seed[:])
+			c16KeyByID[k] = pub
+			c16IDByKey[route.NewVertex(pub)] = k
+		}
+	})
+	return c16KeyByID[id]
+}
+
+func c16Vertex(id int) route.Vertex {
+	if id == 0 {
+		return route.Vertex{}
+	}
+	return route.NewVertex(c16Key(id))
+}
+
+func c16VertexID(v route.Vertex) int {
+	c16Key(1)
+	if v == (route.Vertex{}) {
+		return 0
+	}
+	if id, ok := c16IDByKey[v]; ok {
+		return id
+	}
+	return -1
+}
+
+// c16Units reads an amount in units (-1 if it is not a whole number of units).
+func c16Units(a lnwire.MilliSatoshi) int {
+	if a%c16Unit != 0 {
+		return -1
+	}
+	return int(a / c16Unit)
+}
+
+// c16Blob / c16BlobID: the fixed byte strings behind encrypted data and
+// metadata ids; c16Recs / c16RecsID: the fixed custom record sets.
+func c16Blob(tag byte, id int) []byte {
+	if id == 0 {
+		return nil
+	}
+	return []byte{byte(id), tag, 0x16}
+}
+
+func c16BlobID(tag byte, b []byte) int {
+	switch {
+	case len(b) == 0:
+		return 0
+	case len(b) == 3 && b[0] != 0 && b[1] == tag && b[2] == 0x16:
+		return int(b[0])
+	}
+	return -1
+}
+
+func c16Recs(id int) map[uint64][]byte {
+	if id == 0 {
+		return nil
+	}
+	return map[uint64][]byte{uint64(65536 + id): {byte(id), 0xc}}
+}
+
+func c16RecsID(m map[uint64][]byte) int {
+	if len(m) == 0 {
+		return 0
+	}
+	if len(m) == 1 {
+		for k, v := range m {
+			id := int(k) - 65536
+			if id > 0 && id < 256 && len(v) == 2 && v[0] == byte(id) && v[1] == 0xc {
+				return id
+			}
+		}
+	}
+	return -1
+}
+
+// c16BuildRoute builds the real route.Route of a model route, field by field.
+func c16BuildRoute(m c16Route) route.Route {
+	rt := route.Route{
+		TotalTimeLock:             uint32(m.Ttl),
+		TotalAmount:               lnwire.MilliSatoshi(m.Ta * c16Unit),
+		SourcePubKey:              c16Vertex(m.Src),
+		FirstHopWireCustomRecords: lnwire.CustomRecords(c16Recs(m.Fcr)),
+	}
+	if m.Fha != 0 {
+		rt.FirstHopAmount = tlv.NewRecordT[tlv.TlvType0](
+			tlv.NewBigSizeT(lnwire.MilliSatoshi(m.Fha * c16Unit)))
+	}
+	for _, h := range m.Hops {
+		hop := &route.Hop{
+			PubKeyBytes:      c16Vertex(h.Pk),
+			ChannelID:        uint64(h.Ch),
+			OutgoingTimeLock: uint32(h.Tl),
+			AmtToForward:     lnwire.MilliSatoshi(h.Amt * c16Unit),
+			EncryptedData:    c16Blob(0xe, h.Enc),
+			Metadata:         c16Blob(0xd, h.Md),
+			TotalAmtMsat:     lnwire.MilliSatoshi(h.Tot * c16Unit),
+			CustomRecords:    record.CustomSet(c16Recs(h.Cr)),
+		}
+		if h.Ma != 0 {
+			var addr [32]byte
+			addr[0] = byte(h.Ma)
+			hop.MPP = record.NewMPP(lnwire.MilliSatoshi(h.Mt*c16Unit), addr)
+		}
+		if h.Amp != 0 {
+			var share, set [32]byte
+			share[0], set[0] = byte(h.Amp), byte(h.Amp)
+			hop.AMP = record.NewAMP(share, set, uint32(h.Amp))
+		}
+		if h.Bp != 0 {
+			hop.BlindingPoint = c16Key(100 + h.Bp)
+		}
+		rt.Hops = append(rt.Hops, hop)
+	}
+	return rt
+}
+
+// c16ProjRoute copies a real route back into model terms, field by field.
+func c16ProjRoute(rt *route.Route) c16Route {
+	m := c16Route{
+		Ta:   c16Units(rt.TotalAmount),
+		Ttl:  int(rt.TotalTimeLock),
+		Fha:  c16Units(rt.FirstHopAmount.Val.Int()),
+		Fcr:  c16RecsID(rt.FirstHopWireCustomRecords),
+		Src:  c16VertexID(rt.SourcePubKey),
+		Hops: []c16Hop{},
+	}
+	for _, hop := range rt.Hops {
+		h := c16Hop{
+			Pk:  c16VertexID(hop.PubKeyBytes),
+			Ch:  int(hop.ChannelID),
+			Tl:  int(hop.OutgoingTimeLock),
+			Amt: c16Units(hop.AmtToForward),
+			Enc: c16BlobID(0xe, hop.EncryptedData),
+			Md:  c16BlobID(0xd, hop.Metadata),
+			Tot: c16Units(hop.TotalAmtMsat),
+			Cr:  c16RecsID(hop.CustomRecords),
+		}
+		if hop.MPP != nil {
+			addr := hop.MPP.PaymentAddr()
+			h.Ma = int(addr[0])
+			if addr[0] == 0 || addr != [32]byte{addr[0]} {
+				h.Ma = -1
+			}
+			h.Mt = c16Units(hop.MPP.TotalMsat())
+		}
+		if hop.AMP != nil {
+			share, set := hop.AMP.RootShare(), hop.AMP.SetID()
+			h.Amp = int(hop.AMP.ChildIndex())
+			if h.Amp == 0 || share != [32]byte{byte(h.Amp)} || set != [32]byte{byte(h.Amp)} {
+				h.Amp = -1
+			}
+		}
+		if hop.BlindingPoint != nil {
+			h.Bp = c16VertexID(route.NewVertex(hop.BlindingPoint)) - 100
+			if h.Bp <= 0 {
+				h.Bp = -1
+			}
+		}
+		m.Hops = append(m.Hops, h)
+	}
+	return m
 }
 
 func c16NewFix(tag string, names []string, value, nAtt int) *c16Fix {
@@ -166,8 +460,6 @@ func c16NewFix(tag string, names []string, value, nAtt int) *c16Fix {
 		f.pre[n] = p
 		f.hashes[n] = sha256.Sum256(p[:])
 	}
-	priv, _ := btcec.NewPrivateKey()
-	f.src = route.NewVertex(priv.PubKey())
 	return f
 }
 
@@ -189,36 +481,10 @@ func (f *c16Fix) info(n string) *PaymentCreationInfo {
 
 // attempt builds the HTLCAttemptInfo described by a Register event.
 func (f *c16Fix) attempt(e c16Ev) (*HTLCAttemptInfo, error) {
-	amt := lnwire.MilliSatoshi(e.Amt * c16Unit)
-	final := &route.Hop{
-		PubKeyBytes:      f.src,
-		ChannelID:        2,
-		OutgoingTimeLock: 100,
-		AmtToForward:     amt,
-	}
-	first := &route.Hop{
-		PubKeyBytes:      f.src,
-		ChannelID:        1,
-		OutgoingTimeLock: 110,
-		AmtToForward:     amt,
-	}
-	switch e.Kind {
-	case "mpp":
-		var addr [32]byte
-		addr[0] = byte(e.Addr)
-		final.MPP = record.NewMPP(lnwire.MilliSatoshi(e.Tot*c16Unit), addr)
-	case "blind":
-		priv, _ := btcec.NewPrivateKey()
-		first.EncryptedData = []byte{1, 2, 3}
-		first.BlindingPoint = priv.PubKey()
-		final.EncryptedData = []byte{3, 2, 1}
-		final.TotalAmtMsat = lnwire.MilliSatoshi(e.Tot * c16Unit)
-	}
-	rt := route.Route{
-		TotalTimeLock: 120,
-		TotalAmount:   amt + c16Unit/10,
-		SourcePubKey:  f.src,
-		Hops:          []*route.Hop{first, final},
+	rt := c16BuildRoute(e.route())
+	if len(rt.Hops) == 0 {
+		// outside the universe (the stores dereference the final hop)
+		return nil, fmt.Errorf("c16: Register without a route")
 	}
 	key, err := btcec.NewPrivateKey()
 	if err != nil {
@@ -247,8 +513,10 @@ var c16StatusName = map[PaymentStatus]string{
 func (f *c16Fix) projPayment(p *MPPayment) verifkit.Rec {
 	att := make([]string, f.nAtt)
 	amts := make([]int, f.nAtt)
+	rts := make([]c16Route, f.nAtt)
 	for i := range att {
 		att[i] = "none"
+		rts[i] = c16NoRoute()
 	}
 	extra := 0
 	for _, h := range p.HTLCs {
@@ -268,6 +536,7 @@ func (f *c16Fix) projPayment(p *MPPayment) verifkit.Rec {
 			att[i] = "inflight"
 		}
 		amts[i] = int(h.Route.ReceiverAmt() / c16Unit)
+		rts[i] = c16ProjRoute(&h.Route)
 	}
 	fr := -1
 	if p.FailureReason != nil {
@@ -278,7 +547,7 @@ func (f *c16Fix) projPayment(p *MPPayment) verifkit.Rec {
 		st = fmt.Sprintf("unknown%d", p.Status)
 	}
 	r := verifkit.Rec{"ex": 1, "st": st, "val": int(p.Info.Value / c16Unit), "fr": fr, "att": att, "amt": amts,
-		"extra": extra, "rem": -1, "nin": -1, "hs": -1, "pf": -1}
+		"rt": rts, "extra": extra, "rem": -1, "nin": -1, "hs": -1, "pf": -1}
 	if p.State != nil {
 		r["rem"] = int(p.State.RemainingAmt / c16Unit)
 		r["nin"] = p.State.NumAttemptsInFlight
@@ -297,10 +566,12 @@ func c16Bit(b bool) int {
 
 func (f *c16Fix) projNone(cls string) verifkit.Rec {
 	att := make([]string, f.nAtt)
+	rts := make([]c16Route, f.nAtt)
 	for i := range att {
 		att[i] = "none"
+		rts[i] = c16NoRoute()
 	}
-	return verifkit.Rec{"ex": 0, "st": "none", "val": 0, "fr": -1, "att": att, "amt": make([]int, f.nAtt),
+	return verifkit.Rec{"ex": 0, "st": "none", "val": 0, "fr": -1, "att": att, "amt": make([]int, f.nAtt), "rt": rts,
 		"extra": 0, "rem": -1, "nin": -1, "hs": -1, "pf": -1, "cls": cls}
 }
 
@@ -491,6 +762,68 @@ func TestVerifC16Replay(t *testing.T) {
 
 // ---------------------------------------------------------------- free-running drivers
 
+// c16RandRoute draws a route from the universe of shapes of PaymentStore.tla:
+// 1..3 hops; single-shot, MPP, AMP, blinded (path of length 1..3 behind 0..2
+// plain hops; length 1 = the final hop is the introduction node); now and then
+// another payment address / total, a missing blinded total, an MPP record in a
+// blinded route, custom records, metadata, first-hop data, another fee.
+func c16RandRoute(rng *rand.Rand, value int) c16Route {
+	amt := 1 + rng.Intn(value)
+	if rng.Intn(10) == 0 {
+		amt = value + 1
+	}
+	var r c16Route
+	switch k := rng.Intn(10); {
+	case k < 4:
+		addr, tot := 1, value
+		if rng.Intn(8) == 0 {
+			addr = 2
+		}
+		if rng.Intn(8) == 0 {
+			tot = value + 1
+		}
+		r = c16MppR(1+rng.Intn(3), addr, tot, amt)
+		if rng.Intn(4) == 0 {
+			r.Hops[len(r.Hops)-1].Amp = 1 + rng.Intn(2)
+		}
+	case k < 6:
+		r = c16SingleR(1+rng.Intn(3), value)
+		if rng.Intn(4) == 0 {
+			r = c16SingleR(1+rng.Intn(3), amt)
+		}
+	default:
+		ln := 1 + rng.Intn(3)
+		if rng.Intn(2) == 0 {
+			ln = 1
+		}
+		pre := rng.Intn(3 - ln + 1)
+		tot := value
+		if rng.Intn(6) == 0 {
+			tot = value + 1
+		}
+		if rng.Intn(14) == 0 {
+			tot = 0
+		}
+		r = c16BlindR(pre, ln, tot, amt)
+		if rng.Intn(14) == 0 {
+			r.Hops[len(r.Hops)-1].Ma, r.Hops[len(r.Hops)-1].Mt = 1, value
+		}
+	}
+	if rng.Intn(5) == 0 {
+		r.Hops[rng.Intn(len(r.Hops))].Cr = 1 + rng.Intn(2)
+	}
+	if rng.Intn(6) == 0 {
+		r.Hops[len(r.Hops)-1].Md = 1 + rng.Intn(2)
+	}
+	if rng.Intn(8) == 0 {
+		r.Fha, r.Fcr = 1+rng.Intn(2), rng.Intn(3)
+	}
+	if rng.Intn(8) == 0 {
+		r.Ta = r.Hops[len(r.Hops)-1].Amt + 2*rng.Intn(2)
+	}
+	return r
+}
+
 // c16RandEv draws one operation.  The distribution is biased towards calls
 // the model's simulation rarely lines up: attempt ids registered under the
 // other payment, duplicate ids, exceeding amounts, calls on absent payments.
@@ -503,33 +836,8 @@ func c16RandEv(rng *rand.Rand, names []string, value, nAtt int) c16Ev {
 		e.A = "Init"
 	case x < 44:
 		e.A, e.ID = "Register", id
-		switch k := rng.Intn(10); {
-		case k < 6:
-			e.Kind, e.Addr, e.Tot = "mpp", 1, value
-			if rng.Intn(8) == 0 {
-				e.Addr = 2
-			}
-			if rng.Intn(8) == 0 {
-				e.Tot = value + 1
-			}
-			e.Amt = 1 + rng.Intn(value)
-			if rng.Intn(10) == 0 {
-				e.Amt = value + 1
-			}
-		case k < 8:
-			e.Kind, e.Amt = "single", value
-			if rng.Intn(4) == 0 {
-				e.Amt = 1 + rng.Intn(value+1)
-			}
-		default:
-			e.Kind, e.Tot, e.Amt = "blind", value, 1+rng.Intn(value)
-			if rng.Intn(5) == 0 {
-				e.Tot = value + 1
-			}
-			if rng.Intn(12) == 0 {
-				e.Tot = 0
-			}
-		}
+		rt := c16RandRoute(rng, value)
+		e.Rt, e.Shape = &rt, "random"
 	case x < 58:
 		e.A, e.ID = "Settle", id
 	case x < 72:
